@@ -32,6 +32,7 @@ func VerifC12Cache() {
 	urls := []string{"h.com/a/{id}", "h.com/b/{id}"}
 	ids := []string{"1", "2"}
 	stored := map[string]*c12Stored{}
+	cands := map[string][]*c12Stored{}
 	key := func(st int) (string, string, map[string]string, string) {
 		m := methods[verifChoose(fmt.Sprintf("m%d", st), int(verifParam("methods", 2)))]
 		u := urls[verifChoose(fmt.Sprintf("u%d", st), int(verifParam("urls", 2)))]
@@ -68,10 +69,13 @@ func VerifC12Cache() {
 				stored[k+"#"+fmt.Sprint(st)] = nil
 				delete(stored, k+"#"+fmt.Sprint(st))
 				stored[k] = &c12Stored{at: now, ttlNs: int64(ttl) * sec, body: body, status: status, size: sz}
-				if old != nil {
-					stored[k].size += 0 // an expired predecessor no longer counts
-				}
 				verifReach("stored")
+			}
+			if size <= cfg.MaxRecordSizeBytes {
+				// every response that arrived for the key is a candidate for a later replay: whether the
+				// cache keeps the first fresh one, refuses one for lack of room or loses one early is
+				// left open by the statement
+				cands[k] = append(cands[k], &c12Stored{at: now, ttlNs: int64(ttl) * sec, body: body, status: status})
 			}
 		case 1: // a request asks for a key
 			m, u, pp, k := key(st)
@@ -79,18 +83,31 @@ func VerifC12Cache() {
 			verifAssert(err == nil, "OnRequest returns no error")
 			if early, ok := act.(*actions.EarlyResponseAction); ok {
 				verifReach("replayed")
-				s := stored[k]
-				verifAssert(s != nil, "C12 cache: a stored response is replayed only for the same method, URL and path-parameter values")
-				verifAssert(verifNow() <= s.at+s.ttlNs, "C12 cache: a stored response is replayed only until its time-to-live has passed")
-				verifAssert(early.Body == s.body && early.Status == s.status, "C12 cache: the replayed response is the one stored for this key")
+				verifAssert(len(cands[k]) > 0, "C12 cache: a stored response is replayed only for the same method, URL and path-parameter values")
+				var hit *c12Stored
+				for _, c := range cands[k] {
+					if early.Body == c.body && early.Status == c.status {
+						hit = c
+					}
+				}
+				verifAssert(hit != nil, "C12 cache: the replayed response is one that was stored for this key")
+				verifAssert(verifNow() <= hit.at+hit.ttlNs, "C12 cache: a stored response is replayed only until its time-to-live has passed")
 			} else {
 				verifReach("forwarded")
 			}
 		case 2: // time passes
 			dts := []int64{430 * sec / 1000, 1090 * sec / 1000, 2110 * sec / 1000} // never lands exactly on an expiry instant
-			verifAdvance(dts[verifChoose(fmt.Sprintf("dt%d", st), len(dts))])
+			dt := dts[verifChoose(fmt.Sprintf("dt%d", st), len(dts))]
+			if verifParam("lateTimers", 0) == 1 && verifBool(fmt.Sprintf("late%d", st)) {
+				// the expiry goroutines whose timers fire now are scheduled late: they run after the
+				// next event instead of before it
+				verifAdvanceLazy(dt)
+				continue
+			}
+			verifAdvance(dt)
 			verifDrain()
 		}
+		verifDrain()
 		// size bound: whatever the cache replays right now fits into the configured size
 		held := 0.0
 		for _, m := range methods {
@@ -120,6 +137,19 @@ func VerifC12Throttle() {
 	relative := verifChoose("relative", 2) == 1
 	cfg := &sharedConfig.ResponseBasedThrottlingConfig{RetryAfterHeader: "retry-after", RelevantStatuses: []int{429},
 		RetryAfterType: sharedConfig.RetryAfterAbsoluteEpoch}
+	// the policy may spell the header differently from the (lower-cased) name the proxy hands over;
+	// whether such a response is stored at all is up to the implementation, so the model below
+	// then only knows candidates
+	exactName := true
+	if verifParam("hdrCase", 0) == 1 && verifBool("policy_spells_header_in_title_case") {
+		cfg.RetryAfterHeader = "Retry-After"
+		exactName = false
+	}
+	type cand struct {
+		at, retryMs int64
+		hdr         string
+	}
+	cands := map[string][]cand{}
 	if relative {
 		cfg.RetryAfterType = sharedConfig.RetryAfterRelativeSeconds
 	}
@@ -146,6 +176,9 @@ func VerifC12Throttle() {
 			verifAssert(err == nil, "OnResponse returns no error")
 			old := stored[u]
 			now := verifNow()
+			if status == 429 {
+				cands[u] = append(cands[u], cand{at: now, retryMs: retryMs, hdr: hdr})
+			}
 			if status == 429 && !(old != nil && now <= old.at+old.retryMs*1_000_000) {
 				stored[u] = &rec{at: now, retryMs: retryMs, hdr: hdr}
 				verifReach("stored")
@@ -155,6 +188,34 @@ func VerifC12Throttle() {
 			verifAssert(err == nil, "OnRequest returns no error")
 			if early, ok := act.(*actions.EarlyResponseAction); ok {
 				verifReach("replayed")
+				if !exactName {
+					// candidate model: the replay is one of the throttling responses seen for this URL, still
+					// within its retry-after time, with the retry-after reduced by the time elapsed since
+					ok := false
+					var got string
+					for k, v := range early.Headers {
+						if strings.EqualFold(k, "retry-after") {
+							got = v
+						}
+					}
+					for _, c := range cands[u] {
+						elapsedMs := (verifNow() - c.at) / 1_000_000
+						if elapsedMs > c.retryMs {
+							continue
+						}
+						if relative {
+							want := float64(c.retryMs-elapsedMs) / 1000
+							g, perr := strconv.ParseFloat(got, 64)
+							if perr == nil && g-want < 1e-6 && g-want > -1e-6 {
+								ok = true
+							}
+						} else if got == c.hdr {
+							ok = true
+						}
+					}
+					verifAssert(ok, "C12 throttling: the replayed retry-after is reduced by the time already elapsed (policy header spelled in another case)")
+					continue
+				}
 				s := stored[u]
 				verifAssert(s != nil, "C12 throttling: a throttling response is replayed only for the same method and URL")
 				elapsedMs := (verifNow() - s.at) / 1_000_000
